@@ -24,6 +24,16 @@ EXTRA = {  # properties exercised by a file beyond the anchors of properties.jso
     "internal/metrics/metrics.go": ["C13", "C12"],
     "internal/adminapi/server.go": ["C10", "C11", "C13"],
     "internal/proxy/proxy.go": ["C01", "C03"],
+    # cheapest and broadest first: a mutant is dropped at the first check that reports it
+    "internal/loadbalancer/loadbalancer.go": ["C02", "C04", "C13", "C11", "C05", "C07", "C08", "C09", "C01", "C20", "C06", "C03", "C19", "C12"],
+    "internal/loadbalancer/websocket_pool.go": ["C20", "C19", "C12"],
+    "internal/loadbalancer/round_robin.go": ["C05", "C02", "C11"],
+    "internal/loadbalancer/weighted_round_robin.go": ["C05", "C02", "C12"],
+    "internal/loadbalancer/least_connections.go": ["C05", "C02"],
+    "internal/loadbalancer/ip_hash.go": ["C06", "C02", "C12"],
+    "internal/loadbalancer/ip_hash_consistent.go": ["C06", "C02", "C12"],
+    "internal/circuitbreaker/circuitbreaker.go": ["C07", "C08", "C03", "C12"],
+    "internal/ratelimiter/ratelimiter.go": ["C09", "C12"],
     "cmd/helios/server.go": ["C01", "C16", "C17", "C19", "C10", "C03"],
     "cmd/helios/main.go": ["C19", "C18"],
 }
